@@ -1,9 +1,9 @@
 (* C09 — sub-mesh extraction keeps ids, values and geometry attached.
    Statements only.  gen/MeshCfg.v is regenerated from /repo on every run. *)
-From Coq Require Import ZArith List Bool Arith Sorted.
+From Coq Require Import ZArith List Bool Arith Sorted Lia.
 Import ListNotations.
 From FV.C09 Require Import Table AttrModel.
-From FV.C09 Require Import Model Proofs PolyModel PolyProofs PolyCut PolyCutProofs.
+From FV.C09 Require Import Model Proofs PolyModel PolyProofs PolyCut PolyCutProofs SurfaceTypes.
 From FV.C09.gen Require Import FirstOrder MeshCfg.
 
 (* np.unique and the two-pointer sweep of remove_useless_nodes *)
@@ -221,6 +221,35 @@ Proof.
       intros n Hn. simpl in Hn. simpl. intuition.
   - eexists. split; reflexivity.
 Qed.
+
+(* the table read from FEMElementalAttribute._generate_surface_core (gen/FacetType.v) is the right
+   one: facets of 3 nodes are triangles, of 4 nodes quadrilaterals, of more nodes polygons, fewer
+   than 3 nodes are refused; and typing the groups touches neither rows nor their order *)
+Theorem C09_facet_type_table :
+  facet_type 3 = Some 3%nat /\ facet_type 4 = Some 5%nat /\
+  (forall w : nat, (5 <= w)%nat -> facet_type w = Some 7%nat) /\
+  (forall w : nat, (w < 3)%nat -> facet_type w = None) /\ facet_type_1d = Some 7%nat.
+Proof.
+  split; [reflexivity|]. split; [reflexivity|]. split; [|split; [|reflexivity]].
+  - intros w H. do 5 (destruct w as [|w]; [lia|]). reflexivity.
+  - intros w H. do 3 (destruct w as [|w]; [reflexivity|]). lia.
+Qed.
+
+Theorem C09_typed_groups : forall gs g, typed gs = Some g ->
+  map snd g = map snd gs /\ map (fun x => Some (fst x)) g = map (fun x => facet_type (fst x)) gs.
+Proof.
+  induction gs as [|a gs IH]; intros g H; simpl in H.
+  - inversion H. split; reflexivity.
+  - unfold typed in H. simpl in H. destruct (facet_type (fst a)) as [t|] eqn:F; [|discriminate].
+    simpl in H. fold (typed gs) in H. destruct (typed gs) as [g'|] eqn:T; [|discriminate].
+    inversion H; subst. destruct (IH g' eq_refl) as [A B]. simpl. rewrite A, B, F. split; reflexivity.
+Qed.
+
+Example C09_typed_groups_nonvacuous :
+  typed [(3%nat, [[1; 2; 3]%Z]); (4%nat, [[1; 2; 3; 4]%Z]); (6%nat, [[1; 2; 3; 4; 5; 6]%Z])]
+  = Some [(3%nat, [[1; 2; 3]%Z]); (5%nat, [[1; 2; 3; 4]%Z]); (7%nat, [[1; 2; 3; 4; 5; 6]%Z])]
+  /\ typed [(2%nat, [[1; 2]%Z])] = None.
+Proof. split; reflexivity. Qed.
 
 (* the table read from FEMElementalAttribute._to_first_order (gen/FirstOrder.v) is the right one:
    a type that is reduced keeps exactly the nodes of its first-order counterpart (tet2 -> the 4 of
